@@ -418,8 +418,21 @@ def run(prog: Program, ctx: Ctx) -> None:  # noqa: PLR0912,PLR0915
                             return False
                         # alias errors are handled at the call; a missing key cannot happen when the caller has just looked the module up itself
                         # under a KeyError handler (an earlier collection lookup in the same function, guarded for KeyError)
-                        return any(isinstance(c3.func, ast.Attribute) and c3.func.attr == "get_member" and "modules_collection" in unparse(c3.func.value)
-                                   and c3.lineno < c2.lineno and enclosing_catch(c3) & {"KeyError", "LookupError", "Exception"} for c3 in calls_in(g_.node))
+                        def guarded_kl(fn_: FunctionInfo, c3: ast.Call) -> bool:
+                            return bool(isinstance(c3.func, ast.Attribute) and c3.func.attr == "get_member" and "modules_collection" in unparse(c3.func.value)
+                                        and enclosing_catch(c3) & {"KeyError", "LookupError", "Exception"})
+
+                        for c3 in calls_in(g_.node):
+                            if c3.lineno >= c2.lineno:
+                                continue
+                            if guarded_kl(g_, c3):
+                                return True
+                            # ... or did so in a private method it called before (the lookup moved into a helper of its own)
+                            if isinstance(c3.func, ast.Attribute) and unparse(c3.func.value) == "self" and c3.func.attr.startswith("_") and g_.cls is not None:
+                                for h_ in prog.lookup_method(g_.cls, c3.func.attr):
+                                    if any(guarded_kl(h_, c4) for c4 in calls_in(h_.node)):
+                                        return True
+                        return False
 
                     callers = private_call_sites(prog, f)
                     full = bool(callers) and not f.is_generator and all(site_ok(g_, c2) for g_, c2 in callers)
